@@ -380,5 +380,128 @@ theorem adjustMass_eq (hT : adjustTablesOk = true) (base : Rat) (charge : Option
           + (isotope : Rat) * Gen.neutronMass + loss
         linarith
 
+
+/-- the proof of C02's `mass_eq_spec_partial`, with the two table obligations as hypotheses -/
+theorem mass_eq_spec_of_tables (hR : Gen.aaComp = residueFormula) (hA : adjustTablesOk = true)
+    (env : Env) (a : Annotation) (o : Opts)
+    (hlab : o.isotopeMods = none) (hlab' : a.isotope = none)
+    (hadd : o.adducts = none) (hadd' : a.adducts = none)
+    (hdom : inDomain env a o.ion o.mono none = true) :
+    mass env a o = .ok (roundOpt (specMassT lib env a o.ion
+      ((effCharge a o).getD 0) o.mono o.isotope o.loss none) o.precision) := by
+  unfold inDomain at hdom
+  simp only [Bool.and_eq_true] at hdom
+  obtain ⟨⟨⟨⟨hres, hoff⟩, hmods⟩, hstat⟩, _⟩ := hdom
+  have hB : a.seq.contains 'B' = false := by
+    cases hc : a.seq.contains 'B' with
+    | false => rfl
+    | true =>
+      have hm : 'B' ∈ a.seq := List.contains_iff_mem.mp hc
+      have := List.all_eq_true.mp hres 'B' hm
+      revert this; decide
+  have hZ : a.seq.contains 'Z' = false := by
+    cases hc : a.seq.contains 'Z' with
+    | false => rfl
+    | true =>
+      have hm : 'Z' ∈ a.seq := List.contains_iff_mem.mp hc
+      have := List.all_eq_true.mp hres 'Z' hm
+      revert this; decide
+  obtain ⟨v, hv⟩ := Option.isSome_iff_exists.mp hoff
+  unfold mass massWith resolveArgs effLabels
+  rw [hlab, hlab', hadd, hadd']
+  simp only [pure_bind', hB, hZ, Bool.false_eq_true, if_false]
+  unfold fastMass
+  rw [staticMass_ok env o.mono a hstat, bind_ok, residueMass_ok o.mono a.seq hR hres, bind_ok,
+    placedModsMass_ok env o.mono a o.ion hmods, bind_ok, adjustMass_eq hA _ _ _ _ _ _ _ v hv]
+  unfold specMassT
+  rw [hv]
+  simp only [Option.getD_some]
+  apply congrArg Except.ok
+  apply congrArg (fun q => roundOpt q o.precision)
+  ring
+
+
+
+/-! ### ion masses in normal form (C05) -/
+
+/-- a plain ion-mass query: ion type, charge, mode, isotope offset, loss; no adducts, no labels, no rounding -/
+def ionQuery (t : Key) (z : Int) (mono : Bool) (iso : Int) (loss : Rat) : Opts :=
+  { ion := t, charge := some z, mono := mono, isotope := iso, loss := loss }
+
+theorem placedMods_fragment (a : Annotation) (t : Key) (ht : t ≠ ionP) :
+    placedMods a t = a.unknown.getD [] ++ a.nterm.getD [] ++
+      (a.intervals.getD []).flatMap (fun iv => iv.mods.getD []) ++ (a.internal.getD []).flatMap (·.2) ++ a.cterm.getD [] := by
+  unfold placedMods
+  simp [ht]
+
+/-- the part of an ion mass that does not depend on the ion type or the charge -/
+def ionBase (env : Env) (a : Annotation) (mono : Bool) : Rat :=
+  residueSum lib mono a.seq + (staticValue env mono a + modsValue env mono (placedMods a 98))
+
+/-- the domain for fragment ion types, stated once (on the `b` type) -/
+def fragDomain (env : Env) (a : Annotation) (mono : Bool) : Prop :=
+  a.isotope = none ∧ a.adducts = none ∧ inDomain env a 98 mono none = true
+
+theorem fragMass (hR : Gen.aaComp = residueFormula) (hA : adjustTablesOk = true)
+    (env : Env) (a : Annotation) (mono : Bool) (hd : fragDomain env a mono)
+    (t : Key) (htp : t ≠ ionP) (htn : t ≠ ionN) (v : Rat) (hv : neutralOffset lib mono t = some v)
+    (z iso : Int) (loss : Rat) :
+    mass env a (ionQuery t z mono iso loss)
+      = .ok (ionBase env a mono + v + (lib.hplus mono + ((z : Rat) - 1) * lib.proton) + (iso : Rat) * lib.neutron + loss) := by
+  obtain ⟨hl, had, hdom⟩ := hd
+  have hpl : placedMods a t = placedMods a 98 := by
+    rw [placedMods_fragment a t htp, placedMods_fragment a 98 (by decide)]
+  have hdom' : inDomain env a t mono none = true := by
+    unfold inDomain at hdom ⊢
+    rw [hpl, hv]
+    simp only [Bool.and_eq_true] at hdom ⊢
+    obtain ⟨⟨⟨⟨h1, _⟩, h3⟩, h4⟩, h5⟩ := hdom
+    exact ⟨⟨⟨⟨h1, rfl⟩, h3⟩, h4⟩, h5⟩
+  have := mass_eq_spec_of_tables hR hA env a (ionQuery t z mono iso loss) rfl hl rfl had hdom'
+  rw [this]
+  apply congrArg Except.ok
+  show specMassT lib env a t z mono iso loss none = _
+  unfold specMassT ionBase Spec.chargeTerm
+  rw [hv, hpl]
+  simp only [Option.getD_some]
+  have h1 : (t = ionP || t = ionN) = false := by simp [htp, htn]
+  simp only [h1, Bool.false_eq_true, if_false]
+  ring
+
+theorem precursorMass (hR : Gen.aaComp = residueFormula) (hA : adjustTablesOk = true)
+    (env : Env) (a : Annotation) (mono : Bool) (hl : a.isotope = none) (had : a.adducts = none)
+    (hdom : inDomain env a ionP mono none = true) (z iso : Int) (loss : Rat) :
+    mass env a (ionQuery ionP z mono iso loss)
+      = .ok (residueSum lib mono a.seq + lib.compMass mono fH2O
+              + (staticValue env mono a + modsValue env mono (placedMods a ionP))
+              + (z : Rat) * lib.proton + (iso : Rat) * lib.neutron + loss) := by
+  have := mass_eq_spec_of_tables hR hA env a (ionQuery ionP z mono iso loss) rfl hl rfl had hdom
+  rw [this]
+  apply congrArg Except.ok
+  show specMassT lib env a ionP z mono iso loss none = _
+  unfold specMassT Spec.chargeTerm
+  have hv : neutralOffset lib mono ionP = some (lib.compMass mono fH2O) := rfl
+  rw [hv]
+  simp only [Option.getD_some]
+  simp
+
+set_option maxRecDepth 8000 in
+theorem offsets (mono : Bool) :
+    neutralOffset lib mono (k "a") = some (-(lib.compMass mono fCO)) ∧
+    neutralOffset lib mono (k "b") = some 0 ∧
+    neutralOffset lib mono (k "c") = some (lib.compMass mono fNH3) ∧
+    neutralOffset lib mono (k "x") = some (lib.compMass mono fCO - lib.compMass mono fH2 + lib.compMass mono fH2O) ∧
+    neutralOffset lib mono (k "y") = some (0 + lib.compMass mono fH2O) ∧
+    neutralOffset lib mono (k "z") = some (-(lib.compMass mono fNH3) + lib.compMass mono fH2O) ∧
+    neutralOffset lib mono (k "i") = some (-(lib.compMass mono fCO)) :=
+  ⟨rfl, rfl, rfl, rfl, rfl, rfl, rfl⟩
+
+set_option maxRecDepth 8000 in
+theorem offset_internal (mono : Bool) (f b : Key) (hf : f ∈ [k "a", k "b", k "c"]) (hb : b ∈ [k "x", k "y", k "z"]) :
+    neutralOffset lib mono (f * 256 + b)
+      = some ((seriesOffset lib mono f).getD 0 + (seriesOffset lib mono b).getD 0) := by
+  simp only [List.mem_cons, List.mem_nil_iff, or_false] at hf hb
+  rcases hf with rfl | rfl | rfl <;> rcases hb with rfl | rfl | rfl <;> rfl
+
 end Mass
 end Pept
